@@ -598,30 +598,30 @@ func (pt paramGroupedSlice) getDecoratedValues(c containerStore) (reflect.Value,
 	return _noValue, false
 }
 
-// search the given container and its parents for matching group decorators
-// and call them to commit values. If any decorators return an error,
-// that error is returned immediately. If all decorators succeeds, nil is returned.
-// The order in which the decorators are invoked is from the top level scope to
-// the current scope, to account for decorators that decorate values that were
-// already decorated.
+// search the given container and its parents for the nearest group decorator
+// that is not running already and call it to commit its values, as
+// paramSingle.buildWithDecorators does for single values. A decorator that
+// consumes the group runs the next decorator out while its own arguments are
+// built, so decorators still apply from the top level scope down to the current
+// scope; a decorator that replaces the group without consuming it ends the
+// chain: the decorators of the scopes further out, and the constructors they
+// need, are not part of the request.
 func (pt paramGroupedSlice) callGroupDecorators(c containerStore) error {
-	stores := c.storesToRoot()
-	for i := len(stores) - 1; i >= 0; i-- {
-		c := stores[i]
-		if d, found := c.getGroupDecorator(pt.Group, pt.Type.Elem()); found {
-			if d.State() == decoratorOnStack {
-				// This decorator is already being run. Avoid cycle
-				// and look further.
-				continue
-			}
-			if err := d.Call(c); err != nil {
-				return errParamGroupFailed{
-					CtorID: d.ID(),
-					Key:    key{group: pt.Group, t: pt.Type.Elem()},
-					Reason: err,
-				}
+	for _, c := range c.storesToRoot() {
+		d, found := c.getGroupDecorator(pt.Group, pt.Type.Elem())
+		if !found || d.State() == decoratorOnStack {
+			// None here, or it is the one whose arguments are being built:
+			// look further out.
+			continue
+		}
+		if err := d.Call(c); err != nil {
+			return errParamGroupFailed{
+				CtorID: d.ID(),
+				Key:    key{group: pt.Group, t: pt.Type.Elem()},
+				Reason: err,
 			}
 		}
+		break
 	}
 	return nil
 }
